@@ -19,4 +19,6 @@ sys.exit(1 if missing else 0)
 PY
 rc=$?
 rm -rf "$OUT"
+# the tests write output tables into examples/: remove what is untracked there (git trees only)
+[ -e "$R/.git" ] && git -C "$R" clean -fdq examples 2>/dev/null
 exit $rc
